@@ -148,8 +148,10 @@ def hist2d(x, y, values, xmin, xmax, nx, ymin, ymax, ny):
     # The loop is sequential on purpose: several points fall in the same bin, and
     # concurrent, unsynchronized updates of a bin would lose counts.
     for i in range(len(x)):
-        indx = int((x[i] - xmin) / dx)
-        indy = int((y[i] - ymin) / dy)
+        # Use floor, not truncation towards zero, so that points just below the
+        # lower limits are not counted in the first bin
+        indx = int(np.floor((x[i] - xmin) / dx))
+        indy = int(np.floor((y[i] - ymin) / dy))
         if (indx >= 0) and (indx < nx) and (indy >= 0) and (indy < ny):
             out[:, indy, indx] += values[:, i]
             counts[indy, indx] += 1
